@@ -1,1 +1,3 @@
 pub mod prog;
+pub mod pop;
+pub mod lib;
